@@ -475,6 +475,8 @@ func extFindStringSubmatch(fr *Frame, ins ssa.Instruction, c *ssa.CallCommon, ar
 		fact = fmt.Sprintf("(= %s %s)", matched, digits(s, 8))
 		fact = and(fact, implies(matched, fmt.Sprintf("(and (= %s %s) (= %s (str.substr %s 0 4)) (= %s (str.substr %s 4 2)) (= %s (str.substr %s 6 2)))", grp(0), s, grp(1), s, grp(2), s, grp(3), s)))
 	case `^([0-9]{6})_([[:alnum:]]{1,2})..([SN])([[:alnum:]]*)$`:
+		fx.ufun("re_tripid_matches", []string{"String"}, "Bool")
+		fx.s.assume(st.guard, fmt.Sprintf("(= %s (re_tripid_matches %s))", matched, s))
 		fact = implies(matched, fmt.Sprintf("(and (>= (str.len %s) 6) (= %s %s) (= %s (str.substr %s 0 6)) %s)", s, grp(0), s, grp(1), s, digits(grp(1), 6)))
 	case `([[:alnum:]]{3}?)([SN]?)#EL(.*)`:
 		alnum := `(re.union (re.range "0" "9") (re.range "a" "z") (re.range "A" "Z"))`
